@@ -1,12 +1,22 @@
 import ZCV.Lemmas.Misc
 import ZCV.Model.Matcher
+import ZCV.Lemmas.LayoutSkip
+import ZCV.Lemmas.LayoutCase
+import ZCV.Lemmas.LayoutPerm
+import ZCV.Lemmas.DefinesFold
+import ZCV.Lemmas.LayoutRel
+import ZCV.Lemmas.LayoutErase
+import ZCV.Lemmas.LayoutLoad
+import ZCV.Lemmas.LayoutSwapText
+import ZCV.Lemmas.Datatypes
 namespace ZCV.Props.C15
-open ZCV ZCV.Cfg
+open ZCV ZCV.Cfg ZCV.Conf ZCV.Grammar
 
 /-- indentation and trailing whitespace (any characters `str.isspace` accepts) never change how a line is read -/
 theorem C15_strip_invariant (ws l ws' : Str) (h1 : ws.all pySpace = true) (h2 : ws'.all pySpace = true) :
     Grammar.classify (ws ++ l ++ ws') = Grammar.classify l := classify_pad ws l ws' h1 h2
 
+/-- the same for the parser model: the classification of a line ignores surrounding whitespace -/
 theorem C15_strip_invariant_model (ws l ws' : Str) (h1 : ws.all pySpace = true) (h2 : ws'.all pySpace = true) :
     lineShape (strip (ws ++ l ++ ws')) = lineShape (strip l) := by rw [strip_pad ws l ws' h1 h2]
 
@@ -15,5 +25,280 @@ theorem C15_empty_form_equiv {σ} (c : PCtx σ) (url : Option Str) (line line2 :
     openSection c url line ty nm true st = .ok st' ↔
       ∃ st1, openSection c url line ty nm false st = .ok st1 ∧ closeSection c url line2 ty st1 = .ok st' :=
   empty_form_equiv c url line line2 ty nm st st'
+
+/-! ## Blank and comment lines -/
+
+/-- **Inserting a blank or comment line anywhere in a text changes nothing but line numbers.**  For every context
+    whose `addValue` does not look at the position it is handed (`PosBlind`: the event recorder, any context that
+    only builds values), every resource table and nesting of `%include`s: the text with the extra line is accepted iff
+    the text without it is, and then the parser ends in the SAME state (same context state, same definitions, same
+    open sections).  Only the line numbers handed to the context and quoted in errors can differ. -/
+theorem C15_blank_comment_invariant {σ} (fuel : Nat) (env : Env) (c : PCtx σ) (hc : PosBlind c) (active : List Str)
+    (url : Option Str) (A B : List Str) (l : Str) (n : Nat) (st : PS σ) (hl : lineShape (strip l) = .skip) :
+    (parseLines fuel env c active url (A ++ l :: B) n st).toOption =
+      (parseLines fuel env c active url (A ++ B) n st).toOption :=
+  insert_skip_line fuel env c hc active url A B l n st hl
+
+/-- the same for the stream of events the parser delivers (start / stop / value / import, positions dropped) -/
+theorem C15_blank_comment_invariant_events (fuel : Nat) (env : Env) (active : List Str)
+    (url : Option Str) (A B : List Str) (l : Str) (n : Nat) (st : PS (List Ev0)) (hl : lineShape (strip l) = .skip) :
+    outcome (parseLines fuel env rec0 active url (A ++ l :: B) n st) =
+      outcome (parseLines fuel env rec0 active url (A ++ B) n st) := by
+  rw [outcome_eq, outcome_eq, insert_skip_line fuel env rec0 rec0_posBlind active url A B l n st hl]
+
+/-- which lines these are: the empty line, whitespace only, or `#…` after optional indentation -/
+theorem C15_skip_lines (l : Str) : lineShape (strip l) = .skip ↔ (strip l = [] ∨ (strip l).head? = some '#') :=
+  lineShape_skip_iff (strip l)
+
+
+/-- **The same for contexts that record positions** (tree builder, schema loader …): if the context operations
+    respect a relation `R` between context states whatever positions `addValue` is handed (`PosSim`; think "equal up to
+    recorded positions"), then the text with the extra blank/comment line and the text without it are both rejected, or
+    both accepted with `R`-related context states, the same definitions and the same open sections. -/
+theorem C15_blank_comment_invariant_rel {σ} (c : PCtx σ) (R : σ → σ → Prop) (hc : PosSim c R) (env : Env) (fuel : Nat)
+    (active : List Str) (url : Option Str) (A B : List Str) (l : Str) (n : Nat) (st st' : PS σ)
+    (hl : lineShape (strip l) = .skip) (h : RS R st st') :
+    relM (RS R) (parseLines fuel env c active url (A ++ l :: B) n st) (parseLines fuel env c active url (A ++ B) n st') :=
+  insert_skip_rel c R hc env fuel active url A B l n st st' hl h
+
+/-- the trees the parser builds for the two texts are equal up to positions (or both texts are rejected) -/
+theorem C15_blank_comment_invariant_tree (env : Env) (url : Option Str) (A B : List Str) (l : Str)
+    (hl : lineShape (strip l) = .skip) :
+    relM (fun x y => eraseItems x = eraseItems y) (treeOf env url (A ++ l :: B)) (treeOf env url (A ++ B)) :=
+  treeOf_insert_skip env url A B l hl
+
+/-- positions recorded in the tree do not influence the value the schema defines, nor conformance -/
+theorem C15_positions_irrelevant (conv : Conv) (s : Schema) (items : List Item) :
+    denote conv s (eraseItems items) = denote conv s items :=
+  denote_erase conv s items
+
+/-- **The loader itself**: for every schema the schema loader produces, every datatype family, every resource table
+    (`%include`s of any depth, `%define`s), texts without `%import`, loaded without overrides: inserting a blank or
+    comment line anywhere leaves the configuration returned by `load` unchanged, or both texts are rejected.
+    (`hlow`, `hkeys`: lower-casing is idempotent and the schema's type table is keyed by lower-cased names — facts about
+    generated tables, as in C01.) -/
+theorem C15_blank_comment_invariant_load (conv : Conv) (env : Env) (pkgs : Str → Pkg) (s : Schema) (url : Option Str)
+    (A B : List Str) (l : Str) (hs : schemaOK s = true) (hlow : ∀ x : Str, lower (lower x) = lower x)
+    (hkeys : ∀ p ∈ s.types, lower p.1 = p.1)
+    (hni : ∀ x ∈ A ++ B, NoImportLine x) (hres : ∀ u ls, env.res u = some ls → ∀ x ∈ ls, NoImportLine x)
+    (hl : lineShape (strip l) = .skip) :
+    (load conv env pkgs s url (A ++ l :: B) []).toOption.map (·.value) =
+      (load conv env pkgs s url (A ++ B) []).toOption.map (·.value) :=
+  load_insert_skip conv env pkgs s url A B l hs hlow hkeys hni hres hl
+
+/-! ## Whole texts: a line matters only through its classification -/
+
+/-- replacing a line by any line that is classified in the same way changes NOTHING (same result, same errors, same
+    positions), for every context, fuel, resource table: the parser never looks at the raw line again -/
+theorem C15_same_shape_same_parse {σ} (fuel : Nat) (env : Env) (c : PCtx σ) (active : List Str) (url : Option Str)
+    (A B : List Str) (l l' : Str) (n : Nat) (st : PS σ) (h : lineShape (strip l) = lineShape (strip l')) :
+    parseLines fuel env c active url (A ++ l :: B) n st = parseLines fuel env c active url (A ++ l' :: B) n st :=
+  parse_congr_line fuel env c active url A B l l' n st h
+
+/-- in particular: changing indentation or trailing whitespace of any line of a text -/
+theorem C15_strip_invariant_text {σ} (fuel : Nat) (env : Env) (c : PCtx σ) (active : List Str) (url : Option Str)
+    (A B : List Str) (ws l ws' : Str) (n : Nat) (st : PS σ) (h1 : ws.all pySpace = true) (h2 : ws'.all pySpace = true) :
+    parseLines fuel env c active url (A ++ (ws ++ l ++ ws') :: B) n st = parseLines fuel env c active url (A ++ l :: B) n st :=
+  parse_congr_line fuel env c active url A B _ _ n st (by rw [strip_pad ws l ws' h1 h2])
+
+/-! ## Letter case -/
+
+/-- **Section headers: only the lower-cased type and name matter.**  `<type name>` and `<TYPE Name>` (any spellings
+    that agree after lower-casing; also `<… />`) are classified identically by the documented grammar … -/
+theorem C15_case_invariant (ty ty' ws nm nm' : Str) (e : Bool)
+    (hty : Word ty) (hty' : Word ty') (hnm : Word nm) (hnm' : Word nm')
+    (hws : ws ≠ []) (hsp : ws.all pySpace = true)
+    (hs : ty.head? ≠ some '/') (hs' : ty'.head? ≠ some '/')
+    (hl : nm.getLast? ≠ some '/') (hl' : nm'.getLast? ≠ some '/')
+    (hct : lower ty' = lower ty) (hcn : lower nm' = lower nm) :
+    Grammar.classify (hdrLine ty' ws nm' e) = Grammar.classify (hdrLine ty ws nm e) := by
+  rw [classify_hdrLine ty ws nm e hty hnm hws hsp hs hl, classify_hdrLine ty' ws nm' e hty' hnm' hws hsp hs' hl', hct, hcn]
+
+/-- … and by the parser model (through the generated section-header pattern) -/
+theorem C15_case_invariant_model (ty ty' ws nm nm' : Str) (e : Bool)
+    (hty : Word ty) (hty' : Word ty') (hnm : Word nm) (hnm' : Word nm')
+    (hws : ws ≠ []) (hsp : ws.all pySpace = true) (hnl : '\n' ∉ ws)
+    (hs : ty.head? ≠ some '/') (hs' : ty'.head? ≠ some '/')
+    (hl : nm.getLast? ≠ some '/') (hl' : nm'.getLast? ≠ some '/')
+    (hct : lower ty' = lower ty) (hcn : lower nm' = lower nm) :
+    lineShape (strip (hdrLine ty' ws nm' e)) = lineShape (strip (hdrLine ty ws nm e)) := by
+  rw [lineShape_hdrLine ty ws nm e hty hnm hws hsp hnl hs hl, lineShape_hdrLine ty' ws nm' e hty' hnm' hws hsp hnl hs' hl',
+    hct, hcn]
+
+
+/-- … hence a text in which a section header is respelled in another letter case is parsed identically (every context) -/
+theorem C15_case_invariant_text {σ} (fuel : Nat) (env : Env) (c : PCtx σ) (active : List Str) (url : Option Str)
+    (A B : List Str) (n : Nat) (st : PS σ) (ty ty' ws nm nm' : Str) (e : Bool)
+    (hty : Word ty) (hty' : Word ty') (hnm : Word nm) (hnm' : Word nm')
+    (hws : ws ≠ []) (hsp : ws.all pySpace = true) (hnl : '\n' ∉ ws)
+    (hs : ty.head? ≠ some '/') (hs' : ty'.head? ≠ some '/')
+    (hl : nm.getLast? ≠ some '/') (hl' : nm'.getLast? ≠ some '/')
+    (hct : lower ty' = lower ty) (hcn : lower nm' = lower nm) :
+    parseLines fuel env c active url (A ++ hdrLine ty' ws nm' e :: B) n st =
+      parseLines fuel env c active url (A ++ hdrLine ty ws nm e :: B) n st :=
+  parse_congr_line fuel env c active url A B _ _ n st
+    (C15_case_invariant_model ty ty' ws nm nm' e hty hty' hnm hnm' hws hsp hnl hs hs' hl hl' hct hcn)
+
+/-- what the header denotes: the lower-cased type and name -/
+theorem C15_header_reads (ty ws nm : Str) (e : Bool) (hty : Word ty) (hnm : Word nm)
+    (hws : ws ≠ []) (hsp : ws.all pySpace = true) (hnl : '\n' ∉ ws)
+    (hs : ty.head? ≠ some '/') (hl : nm.getLast? ≠ some '/') :
+    lineShape (strip (hdrLine ty ws nm e)) = .open_ (lower ty) (some (lower nm)) e :=
+  lineShape_hdrLine ty ws nm e hty hnm hws hsp hnl hs hl
+
+/-- nameless headers `<type>` / `<type/>` -/
+theorem C15_case_invariant_nameless (ty ty' : Str) (e : Bool) (hty : Word ty) (hty' : Word ty')
+    (hs : ty.head? ≠ some '/') (hs' : ty'.head? ≠ some '/')
+    (hl : ty.getLast? ≠ some '/') (hl' : ty'.getLast? ≠ some '/') (hct : lower ty' = lower ty) :
+    lineShape (strip (hdrLine1 ty' e)) = lineShape (strip (hdrLine1 ty e)) := by
+  rw [lineShape_hdrLine1 ty e hty hs hl, lineShape_hdrLine1 ty' e hty' hs' hl', hct]
+
+/-- section ends `</type>` -/
+theorem C15_case_invariant_close (ty ty' : Str) (hty : Word ty) (hty' : Word ty') (hct : lower ty' = lower ty) :
+    lineShape (strip (closeLine ty')) = lineShape (strip (closeLine ty)) := by
+  rw [lineShape_closeLine ty hty, lineShape_closeLine ty' hty', hct]
+
+/-- `%define` names: only the lower-cased name matters -/
+theorem C15_case_invariant_define (env : Env) (url : Option Str) (line : Nat) (rest rest' n n' : Str) (more : List Str)
+    (defs : List (Str × Str)) (hs : splitWS1 rest = n :: more) (hs' : splitWS1 rest' = n' :: more)
+    (hc : lower n' = lower n) :
+    define env url line rest' defs = define env url line rest defs := by
+  unfold define
+  rw [hs, hs']
+  simp only [hc]
+
+/-- `$name` / `${name}` references: changing their letter case changes neither the expansion nor whether the text is
+    accepted (`DefSpec.RefCase`) -/
+theorem C15_case_invariant_reference (env : Env) (defs : List (Str × Str)) (url : Option Str) (line : Nat) (s s' : Str)
+    (h : DefSpec.RefCase s s') :
+    (replace env defs url line s').toOption = (replace env defs url line s).toOption := by
+  rw [replace_eq_expand, replace_eq_expand]
+  unfold DefSpec.expand SubstSpec.substituteSpec
+  have := SubstSpec.spec_refCase (DefSpec.get defs) env.getenv h s s'
+  cases h1 : SubstSpec.spec (DefSpec.get defs) env.getenv s s <;>
+    cases h2 : SubstSpec.spec (DefSpec.get defs) env.getenv s' s' <;> simp_all [liftE]
+
+
+/-- **Keys**: respelling the key of a key line — anywhere in the tree — with a key that the enclosing section's key type
+    normalises to the same thing does not change the value the schema defines … -/
+theorem C15_key_spelling_invariant (conv : Conv) (s : Schema) (items items' : List Item)
+    (h : RekeyIn conv s s.top items items') : denote conv s items = denote conv s items' :=
+  denote_rekeyIn conv s h
+
+/-- … and under the case-insensitive key type `basic-key` (the default) two spellings of a key that differ only in
+    letter case normalise to the same thing -/
+theorem C15_key_case_basic_key (k k' : Str) (hk : DTSpec.isBasicKey k = true) (hk' : DTSpec.isBasicKey k' = true)
+    (hc : asciiLower k' = asciiLower k) : DT.basicKey k' = DT.basicKey k := by
+  rw [DT.basicKey_eq_spec, DT.basicKey_eq_spec]
+  unfold DTSpec.basicKey
+  simp only [hk, hk', ↓reduceIte, hc]
+
+/-! ## Order of lines -/
+
+/-- **Swapping two neighbouring lines of one section** — two key lines that end up in different attributes (e.g. two
+    differently named declared keys), or a key line and a sub-section — anywhere in the tree (`SwapIn`: at top level or
+    inside any nest of sections) **does not change the value the schema defines for the text, nor whether it
+    conforms.**  (Two lines of one multikey, two sub-sections, and two keys collected by the same `+` key keep their
+    order: it is the order of the resulting list / mapping.) -/
+theorem C15_permutation_invariant (conv : Conv) (s : Schema) (items items' : List Item)
+    (h : SwapIn conv s s.top items items') : denote conv s items = denote conv s items' :=
+  denote_swapIn conv s h
+
+/-- any sequence of such swaps -/
+theorem C15_permutation_invariant_general (conv : Conv) (s : Schema) (items items' : List Item)
+    (h : Reorder conv s items items') : denote conv s items = denote conv s items' :=
+  denote_reorder conv s h
+
+/-- hence the loader returns the same configuration, or rejects both texts (every schema the schema loader produces) -/
+theorem C15_permutation_invariant_load (conv : Conv) (s : Schema) (items items' : List Item)
+    (hs : schemaOK s = true) (ht : tyCanon s items = true) (h : Reorder conv s items items') :
+    (loadTree conv s items).toOption = (loadTree conv s items').toOption :=
+  loadTree_reorder conv s hs ht h
+
+/-- the instance one usually has in mind: two adjacent key lines `k1 v1` / `k2 v2` at top level whose keys are routed
+    to different attributes -/
+theorem C15_swap_two_keys (conv : Conv) (s : Schema) (A B : List Item) (k1 v1 k2 v2 : Str) (p1 p2 : Pos)
+    (h : target conv s.top k1 ≠ target conv s.top k2) :
+    denote conv s (A ++ .kv k1 v1 p1 :: .kv k2 v2 p2 :: B) = denote conv s (A ++ .kv k2 v2 p2 :: .kv k1 v1 p1 :: B) :=
+  denote_swapIn conv s (.here A B _ _ h)
+
+/-- **The same on TEXT, for the tree the parser builds**: swapping two neighbouring key lines `l1`, `l2` of a text
+    (anywhere: any prefix `A` with sections, `%define`s, `%include`s; any rest `B`) whose keys go to different
+    attributes of the section that is open at that point (`KeysIndepAt`, read off the tree builder's state after `A`)
+    yields trees that differ by that swap, up to positions — or the parser rejects both texts (e.g. an undefined
+    `$`-reference in either value). -/
+theorem C15_permutation_invariant_text_tree (conv : Conv) (s : Schema) (env : Env) (url : Option Str) (A B : List Str)
+    (l1 l2 k1 raw1 k2 raw2 : Str)
+    (h1 : lineShape (strip l1) = .kv k1 raw1) (h2 : lineShape (strip l2) = .kv k2 raw2)
+    (hi : ∀ sA, runLines 64 env treeCtx (activeOf url) url A 0
+        { ctx := { stack := [([], none, [])] }, stack := [], defs := [] } = .ok sA → KeysIndepAt conv s sA.ctx k1 k2) :
+    relM (fun x y => SwJ conv s s.top (eraseItems x) (eraseItems y))
+      (treeOf env url (A ++ l1 :: l2 :: B)) (treeOf env url (A ++ l2 :: l1 :: B)) :=
+  treeOf_swap_lines conv s env url A B l1 l2 k1 raw1 k2 raw2 h1 h2 hi
+
+/-- **… and for the loader**: the two texts yield the same configuration, or both are rejected (every schema the schema
+    loader produces, every datatype family, texts without `%import`, no overrides; `hlow`, `hkeys` as in C01). -/
+theorem C15_permutation_invariant_text_load (conv : Conv) (env : Env) (pkgs : Str → Pkg) (s : Schema) (url : Option Str)
+    (A B : List Str) (l1 l2 k1 raw1 k2 raw2 : Str)
+    (hs : schemaOK s = true) (hlow : ∀ x : Str, lower (lower x) = lower x)
+    (hkeys : ∀ p ∈ s.types, lower p.1 = p.1)
+    (hni : ∀ x ∈ A ++ B, NoImportLine x) (hres : ∀ u ls, env.res u = some ls → ∀ x ∈ ls, NoImportLine x)
+    (h1 : lineShape (strip l1) = .kv k1 raw1) (h2 : lineShape (strip l2) = .kv k2 raw2)
+    (hi : ∀ sA, runLines 64 env treeCtx (activeOf url) url A 0
+        { ctx := { stack := [([], none, [])] }, stack := [], defs := [] } = .ok sA → KeysIndepAt conv s sA.ctx k1 k2) :
+    (load conv env pkgs s url (A ++ l1 :: l2 :: B) []).toOption.map (·.value) =
+      (load conv env pkgs s url (A ++ l2 :: l1 :: B) []).toOption.map (·.value) :=
+  load_swap_lines conv env pkgs s url A B l1 l2 k1 raw1 k2 raw2 hs hlow hkeys hni hres h1 h2 hi
+
+/-- a condition on the schema alone that implies `KeysIndepAt` at every point of every text -/
+theorem C15_keysIndepAt_of_schema (conv : Conv) (s : Schema) (st : TB) (k1 k2 : Str)
+    (htop : target conv s.top k1 ≠ target conv s.top k2)
+    (hall : ∀ ty t, s.gettype ty = some (.concrete t) → target conv t k1 ≠ target conv t k2) :
+    KeysIndepAt conv s st k1 k2 :=
+  keysIndepAt_of_schema conv s st k1 k2 htop hall
+
+/-! ### the hypotheses are satisfiable -/
+
+example : lineShape (strip "   # a comment ".toList) = .skip :=
+  (C15_skip_lines _).mpr (Or.inr (by decide +kernel))
+
+example : lineShape (strip "    ".toList) = .skip :=
+  (C15_skip_lines _).mpr (Or.inl (by decide +kernel))
+
+/-- `<SECT Name>` is read like `<sect name>` -/
+example : lineShape (strip (hdrLine "SECT".toList " ".toList "Name".toList false)) =
+    lineShape (strip (hdrLine "sect".toList " ".toList "name".toList false)) :=
+  C15_case_invariant_model "sect".toList "SECT".toList " ".toList "name".toList "Name".toList false
+    (by decide +kernel) (by decide +kernel) (by decide +kernel) (by decide +kernel) (by decide) (by decide +kernel)
+    (by decide) (by decide) (by decide) (by decide) (by decide) (by decide +kernel) (by decide +kernel)
+
+example : hdrLine "SECT".toList " ".toList "Name".toList false = "<SECT Name>".toList := by decide
+
+/-- `$NAME-x ${Name} $$ $(HOME)` ~ `$name-x ${name} $$ $(HOME)` -/
+example : DefSpec.RefCase "$AB-x${Ab}$$$(HOME)".toList "$ab-x${ab}$$$(HOME)".toList :=
+  .bare "AB".toList "ab".toList (t := "-x${Ab}$$$(HOME)".toList) (t' := "-x${ab}$$$(HOME)".toList)
+    (by decide) (by decide) (by decide +kernel) (by intro c hc; simp at hc; subst hc; decide)
+    (.lit '-' (by decide) (.lit 'x' (by decide)
+      (.brace "Ab".toList "ab".toList (t := "$$$(HOME)".toList) (t' := "$$$(HOME)".toList)
+        (by decide) (by decide) (by decide +kernel)
+        (.esc (.env "HOME".toList (t := []) (t' := []) (by decide) .nil)))))
+
+/-- a schema with two keys `a`, `b`; a datatype family that accepts everything -/
+private def exT : SType :=
+  { name := none, keytype := [], datatype := [],
+    children := [(some ['a'], .key { name := ['a'], attr := ['a'], multi := false, minOccurs := 0, dt := [], dflt := .none, handler := none }),
+                 (some ['b'], .key { name := ['b'], attr := ['b'], multi := false, minOccurs := 0, dt := [], dflt := .none, handler := none })] }
+private def exS : Schema := { types := [], top := exT, handler := none, components := [] }
+private def exConv : Conv := { key := fun _ s => .ok s, val := fun _ s => .ok (.str s), sect := fun _ v => .ok v }
+
+/-- `a 1` / `b 2` may change places -/
+example : SwapIn exConv exS exS.top ([] ++ .kv ['a'] ['1'] ⟨1, none⟩ :: .kv ['b'] ['2'] ⟨2, none⟩ :: [])
+    ([] ++ .kv ['b'] ['2'] ⟨2, none⟩ :: .kv ['a'] ['1'] ⟨1, none⟩ :: []) :=
+  .here [] [] _ _ (by show target exConv exT ['a'] ≠ target exConv exT ['b']; decide)
+
+/-- for the two-key schema above, `a` and `b` are independent at every point of every text -/
+example (st : TB) : KeysIndepAt exConv exS st ['a'] ['b'] :=
+  C15_keysIndepAt_of_schema exConv exS st ['a'] ['b'] (by show target exConv exT ['a'] ≠ target exConv exT ['b']; decide)
+    (by intro ty t h; simp [exS, Schema.gettype] at h)
 
 end ZCV.Props.C15
